@@ -332,7 +332,63 @@ func stress(n int, seed int64) (int, string) {
 	return n, ""
 }
 
+// crowd: rounds of k requesters released together, each asking one of two echo actors and collecting at once.  Judged
+// by the clauses of ReqResp.tla that every history must satisfy: the reply returned answers that very request
+// (C11_Correlated), nobody times out although its target answers at once, the response PID is gone afterwards
+// (C11_Unregistered).
+func crowd(rounds, k int) (int, string) {
+	e, err := actor.NewEngine(actor.NewEngineConfig())
+	if err != nil {
+		panic(err)
+	}
+	echo := func(c *actor.Context) {
+		if m, ok := c.Message().(request); ok {
+			c.Respond(reply{m.R, 1})
+		}
+	}
+	targets := []*actor.PID{e.SpawnFunc(echo, "echo", actor.WithID("1")), e.SpawnFunc(echo, "echo", actor.WithID("2"))}
+	total := 0
+	for round := 0; round < rounds; round++ {
+		start := make(chan struct{})
+		problems := make(chan string, k)
+		var wg sync.WaitGroup
+		for j := 0; j < k; j++ {
+			id := round*k + j + 1
+			wg.Add(1)
+			go func() {
+				defer wg.Done()
+				<-start
+				resp := e.Request(targets[id%2], request{id}, 5*time.Second)
+				v, err := resp.Result()
+				switch {
+				case err != nil:
+					problems <- fmt.Sprintf("Result() of request %d timed out although its target answers at once (%d concurrent requesters)", id, k)
+				default:
+					if rp, ok := v.(reply); !ok || rp.R != id {
+						problems <- fmt.Sprintf("Result() of request %d returned %v: the reply to another request (%d concurrent requesters)", id, v, k)
+					}
+				}
+				pid := strings.TrimPrefix(resp.PID().ID, "response/")
+				if e.Registry.GetPID("response", pid) != nil {
+					problems <- fmt.Sprintf("after Result() of request %d returned its response PID is still registered (%d concurrent requesters)", id, k)
+				}
+			}()
+		}
+		close(start)
+		wg.Wait()
+		total += k
+		select {
+		case p := <-problems:
+			return total, p
+		default:
+		}
+	}
+	return total, ""
+}
+
 func main() {
+	crowdN := flag.Int("crowd", 0, "run this many rounds of concurrent requesters instead of cases")
+	crowdK := flag.Int("crowd-k", 16, "requesters per round")
 	in := flag.String("cases", "", "ndjson file of cases exported by TLC")
 	stressN := flag.Int("stress", 0, "run the deadline-race stress with this many requests instead of cases")
 	seed := flag.Int64("seed", 1, "")
@@ -340,6 +396,14 @@ func main() {
 	maxFail := flag.Int("max-failures", 20, "")
 	flag.Parse()
 	slog.SetDefault(slog.New(slog.NewTextHandler(io.Discard, nil)))
+	if *crowdN > 0 {
+		n, what := crowd(*crowdN, *crowdK)
+		json.NewEncoder(os.Stdout).Encode(map[string]any{"requests": n, "what": what})
+		if what != "" {
+			os.Exit(1)
+		}
+		return
+	}
 	if *stressN > 0 {
 		n, what := stress(*stressN, *seed)
 		json.NewEncoder(os.Stdout).Encode(map[string]any{"requests": n, "what": what})
